@@ -2,8 +2,11 @@
 //! and the public `__UnixWriter` (`write_str`, `write_fmt`, `__write_newline`) over `try_print`.
 //!
 //! Model kernel over the syscall seam: every `write`/`writev` on fd 1/2 is answered from a
-//! script over {accept all, accept 1, 2, 7 bytes, EINTR, EAGAIN, EIO}; accepted bytes are
+//! script over {accept all, accept 1, 2, 7 bytes, EINTR, EAGAIN, EIO, 0}; accepted bytes are
 //! recorded (copied out of the caller's buffer), nothing reaches the real stdout/stderr.
+//! The answer 0 to a NON-EMPTY buffer (no errno, nothing accepted - what write_all calls
+//! WriteZero) must end the current write_fmt with Err: it may not be reported as Ok with the
+//! rest of the piece missing, and no later piece of the same format string may follow it.
 //! After the script every call accepts everything.  Reference: `std::format!` with the same
 //! format string (+ exactly one '\n' for the *ln forms).
 
@@ -12,11 +15,12 @@ use common::*;
 use serde_json::{json, Value};
 use sysx::{Decision, Plan};
 
-const SYMS: [&str; 7] = ["all", "1", "2", "7", "EINTR", "EAGAIN", "EIO"];
+const SYMS: [&str; 8] = ["all", "1", "2", "7", "EINTR", "EAGAIN", "EIO", "0"];
 const ALL: u8 = 0;
 const S_EINTR: u8 = 4;
 const S_EAGAIN: u8 = 5;
 const S_EIO: u8 = 6;
+const S_ZERO: u8 = 7;
 /// write calls after which a case is declared livelocked (the longest legitimate case issues ~620)
 const HORIZON: usize = 4000;
 
@@ -53,6 +57,12 @@ struct WPlan {
     noncanon: bool,
     eintr: u32,
     hard: u32,
+    /// answers 0 given to a non-empty buffer
+    zero: u32,
+    /// accepted.len() when the first such answer was given
+    accepted_at_zero: usize,
+    /// write calls issued after the first such answer
+    calls_after_zero: u32,
     via_writev: u32,
     other: Vec<i64>,
 }
@@ -64,7 +74,7 @@ impl WPlan {
             script: script.to_vec(),
             case: case_json(c, script),
             want_fd: match c.op {
-                "print" | "println" | "write_str" | "write_newline" => 1,
+                "print" | "println" | "write_str" | "write_newline" | "write_fmt_out" => 1,
                 _ => 2,
             },
             ncalls: 0,
@@ -74,6 +84,9 @@ impl WPlan {
             noncanon: false,
             eintr: 0,
             hard: 0,
+            zero: 0,
+            accepted_at_zero: 0,
+            calls_after_zero: 0,
             via_writev: 0,
             other: Vec::new(),
         }
@@ -100,6 +113,9 @@ impl WPlan {
         }
         let n = buf.len();
         let sym = self.script.get(idx).copied().unwrap_or(ALL);
+        if self.zero > 0 {
+            self.calls_after_zero += 1;
+        }
         let ret: i64 = match sym {
             ALL => n as i64,
             1..=3 => {
@@ -117,6 +133,18 @@ impl WPlan {
             S_EAGAIN => {
                 self.hard += 1;
                 -(libc::EAGAIN as i64)
+            }
+            S_ZERO => {
+                if n == 0 {
+                    // the same kernel answer as "all" for an empty buffer
+                    self.noncanon = true;
+                } else {
+                    if self.zero == 0 {
+                        self.accepted_at_zero = self.accepted.len();
+                    }
+                    self.zero += 1;
+                }
+                0
             }
             _ => {
                 self.hard += 1;
@@ -173,8 +201,23 @@ fn run_it(plan: &mut WPlan, f: impl FnOnce() -> Option<bool>) -> Outcome {
     sysx::run(plan, || catch(f)).0
 }
 
+/// The expected text as the operation builds it: one body per write_fmt the operation performs, each
+/// followed by a separately written '\n' when `nl` (the *ln forms, dbg!, __write_newline).
+struct Expected {
+    bodies: Vec<String>,
+    nl: bool,
+}
+impl Expected {
+    fn text(&self) -> String {
+        self.bodies.iter().map(|b| if self.nl { format!("{b}\n") } else { b.clone() }).collect()
+    }
+}
+fn exp(body: String, nl: bool) -> Expected {
+    Expected { bodies: vec![body], nl }
+}
+
 /// Runs the operation of the combo under the plan; returns the expected text and what came back.
-fn invoke(c: &Combo, plan: &mut WPlan) -> (String, Outcome) {
+fn invoke(c: &Combo, plan: &mut WPlan) -> (Expected, Outcome) {
     use core::fmt::Write as _;
     use tiny_std::unix::print::{__STDERR_WRITER, __STDOUT_WRITER};
     let len = c.len;
@@ -185,38 +228,39 @@ fn invoke(c: &Combo, plan: &mut WPlan) -> (String, Outcome) {
         ($($t:tt)*) => {{
             let body = format!($($t)*);
             match c.op {
-                "print" => (body, run_it(plan, || { tiny_std::print!($($t)*); None })),
-                "println" => (body + "\n", run_it(plan, || { tiny_std::println!($($t)*); None })),
-                "eprint" => (body, run_it(plan, || { tiny_std::eprint!($($t)*); None })),
-                "eprintln" => (body + "\n", run_it(plan, || { tiny_std::eprintln!($($t)*); None })),
-                "write_fmt" => (body, run_it(plan, || { let mut w = __STDERR_WRITER; Some(w.write_fmt(format_args!($($t)*)).is_ok()) })),
+                "print" => (exp(body, false), run_it(plan, || { tiny_std::print!($($t)*); None })),
+                "println" => (exp(body, true), run_it(plan, || { tiny_std::println!($($t)*); None })),
+                "eprint" => (exp(body, false), run_it(plan, || { tiny_std::eprint!($($t)*); None })),
+                "eprintln" => (exp(body, true), run_it(plan, || { tiny_std::eprintln!($($t)*); None })),
+                "write_fmt" => (exp(body, false), run_it(plan, || { let mut w = __STDERR_WRITER; Some(w.write_fmt(format_args!($($t)*)).is_ok()) })),
+                "write_fmt_out" => (exp(body, false), run_it(plan, || { let mut w = __STDOUT_WRITER; Some(w.write_fmt(format_args!($($t)*)).is_ok()) })),
                 other => unreachable!("{other}"),
             }
         }};
     }
     match (c.op, c.shape) {
-        ("println", "bare") => ("\n".to_string(), run_it(plan, || { tiny_std::println!(); None })),
-        ("eprintln", "bare") => ("\n".to_string(), run_it(plan, || { tiny_std::eprintln!(); None })),
-        ("write_str", _) => (whole.to_string(), run_it(plan, || { let mut w = __STDOUT_WRITER; Some(w.write_str(whole).is_ok()) })),
-        ("write_newline", _) => ("\n".to_string(), run_it(plan, || Some(__STDOUT_WRITER.__write_newline().is_ok()))),
+        ("println", "bare") => (exp(String::new(), true), run_it(plan, || { tiny_std::println!(); None })),
+        ("eprintln", "bare") => (exp(String::new(), true), run_it(plan, || { tiny_std::eprintln!(); None })),
+        ("write_str", _) => (exp(whole.to_string(), false), run_it(plan, || { let mut w = __STDOUT_WRITER; Some(w.write_str(whole).is_ok()) })),
+        ("write_newline", _) => (exp(String::new(), true), run_it(plan, || Some(__STDOUT_WRITER.__write_newline().is_ok()))),
         // dbg!: line!() and the invocation must stay on ONE source line each
         ("dbg", "bare") => {
             let (ln, res) = (line!(), run_it(plan, || { tiny_std::dbg!(); None }));
-            (format!("[{}:{}]\n", file!(), ln), res)
+            (exp(format!("[{}:{}]", file!(), ln), true), res)
         }
         ("dbg", "one") => {
             let (ln, res) = (line!(), run_it(plan, || { let _ = tiny_std::dbg!(whole); None }));
-            (format!("[{}:{}] {} = {:#?}\n", file!(), ln, "whole", whole), res)
+            (exp(format!("[{}:{}] {} = {:#?}", file!(), ln, "whole", whole), true), res)
         }
         ("dbg", "two") => {
             let (a, b) = whole.split_at(len / 2);
             let (ln, res) = (line!(), run_it(plan, || { let _ = tiny_std::dbg!(a, b); None }));
-            (format!("[{f}:{ln}] a = {a:#?}\n[{f}:{ln}] b = {b:#?}\n", f = file!()), res)
+            (Expected { bodies: vec![format!("[{f}:{ln}] a = {a:#?}", f = file!()), format!("[{f}:{ln}] b = {b:#?}", f = file!())], nl: true }, res)
         }
         ("dbg", "struct") => {
             let rec = Rec { id: 7, name: whole, tags: [1, 2, 3] };
             let (ln, res) = (line!(), run_it(plan, || { let _ = tiny_std::dbg!(&rec); None }));
-            (format!("[{}:{}] {} = {:#?}\n", file!(), ln, "&rec", &rec), res)
+            (exp(format!("[{}:{}] {} = {:#?}", file!(), ln, "&rec", &rec), true), res)
         }
         (_, "lit0") => via!(""),
         (_, "lit5") => via!("hello"),
@@ -230,6 +274,12 @@ fn invoke(c: &Combo, plan: &mut WPlan) -> (String, Outcome) {
             let t = text(len - 3);
             let (a, b) = t.split_at((len - 3) / 2);
             via!("<{}|{}>", a, b)
+        }
+        (_, "pieces") => {
+            // "<ab>" : two adjacent arguments between literal pieces, total length `len`
+            let t = text(len - 2);
+            let (a, b) = t.split_at((len - 2) / 2);
+            via!("<{}{}>", a, b)
         }
         (_, "pad") => via!("{:>w$}", "x", w = len),
         (_, "dbgstr") => {
@@ -267,6 +317,24 @@ fn compare(accepted: &[u8], expected: &[u8]) -> Cmp {
     }
 }
 
+/// `a` = for every body in turn a prefix of it, optionally followed by its separately written '\n':
+/// what is left when each write_fmt stops at its first failing write and nothing is written twice.
+fn fits_prefix_form(a: &[u8], bodies: &[String], nl: bool) -> bool {
+    let Some(first) = bodies.first() else { return a.is_empty() };
+    let b = first.as_bytes();
+    let l = a.iter().zip(b.iter()).take_while(|(x, y)| x == y).count();
+    for k in (0..=l).rev() {
+        let rest = &a[k..];
+        if fits_prefix_form(rest, &bodies[1..], nl) {
+            return true;
+        }
+        if nl && rest.first() == Some(&b'\n') && fits_prefix_form(&rest[1..], &bodies[1..], nl) {
+            return true;
+        }
+    }
+    false
+}
+
 fn where_differs(a: &[u8], e: &[u8]) -> String {
     let i = a.iter().zip(e.iter()).take_while(|(x, y)| x == y).count();
     let cut = |s: &[u8]| show_bytes(&s[i.min(s.len())..(i + 12).min(s.len())]);
@@ -281,7 +349,8 @@ fn run_case(c: &Combo, script: &[u8], r: &mut Report, verbose: bool) -> Ran {
     let case = case_json(c, script);
     let mut plan = WPlan::new(c, script);
     set_case(&case.to_string());
-    let (expected, res) = invoke(c, &mut plan);
+    let (exp_parts, res) = invoke(c, &mut plan);
+    let expected = exp_parts.text();
     clear_case();
     r.eval();
     let p = &plan;
@@ -329,7 +398,36 @@ fn run_case(c: &Combo, script: &[u8], r: &mut Report, verbose: bool) -> Ran {
         }
         // the macros: no result to look at
         Ok(None) => {
-            if p.hard == 0 && p.eintr == 0 {
+            if p.zero > 0 {
+                // write answered 0 for a non-empty remainder: the write_fmt in progress has to stop there (the macros then
+                // discard its error); a separately written '\n' of the *ln forms may still follow, a later piece may not
+                match cmp {
+                    Cmp::Equal => r.outcome("zero-answer:retried,everything-delivered"),
+                    Cmp::Lost => {
+                        if fits_prefix_form(&p.accepted, &exp_parts.bodies, exp_parts.nl) {
+                            r.outcome(if p.accepted.len() > p.accepted_at_zero {
+                                "zero-answer:rest-of-text-dropped-silently,newline-still-written"
+                            } else {
+                                "zero-answer:rest-dropped-silently"
+                            })
+                        } else {
+                            r.outcome("VIOLATION:ok-but-incomplete");
+                            viol(
+                                r,
+                                "ok-but-incomplete",
+                                format!(
+                                    "write answered 0 for a non-empty remainder ({} bytes accepted until then) and was taken for success: a later piece of the same format string was still written, bytes are missing from the middle",
+                                    p.accepted_at_zero
+                                ),
+                            )
+                        }
+                    }
+                    other => {
+                        r.outcome("VIOLATION:dup-or-reorder");
+                        viol(r, dup_or_reorder(other), "after a 0 answer".into())
+                    }
+                }
+            } else if p.hard == 0 && p.eintr == 0 {
                 match cmp {
                     Cmp::Equal => r.outcome(if p.ncalls == 0 {
                         "complete:no-write-needed"
@@ -376,7 +474,15 @@ fn run_case(c: &Combo, script: &[u8], r: &mut Report, verbose: bool) -> Ran {
             }
         }
         Ok(Some(true)) => match cmp {
-            Cmp::Equal => r.outcome(if p.eintr + p.hard > 0 { "helper-ok:error-retried" } else { "helper-ok" }),
+            Cmp::Equal => r.outcome(if p.eintr + p.hard + p.zero > 0 { "helper-ok:error-retried" } else { "helper-ok" }),
+            Cmp::Lost if p.zero > 0 => {
+                r.outcome("VIOLATION:ok-but-incomplete");
+                viol(
+                    r,
+                    "ok-but-incomplete",
+                    format!("Ok was returned although write answered 0 for a non-empty remainder ({} bytes accepted until then) and the rest of it was never delivered", p.accepted_at_zero),
+                )
+            }
             Cmp::Lost => {
                 r.outcome("VIOLATION:helper-ok-bytes-lost");
                 viol(r, if p.hard == 0 && p.eintr > 0 { "bytes-lost-eintr" } else { "bytes-lost" }, "Ok was returned".into())
@@ -387,9 +493,22 @@ fn run_case(c: &Combo, script: &[u8], r: &mut Report, verbose: bool) -> Ran {
             }
         },
         Ok(Some(false)) => {
-            if p.eintr + p.hard == 0 {
+            if p.eintr + p.hard + p.zero == 0 {
                 r.outcome("VIOLATION:helper-spurious-error");
                 viol(r, "spurious-error", "Err was returned although the kernel reported no error".into());
+            } else if p.zero > 0 {
+                // Err after a 0 answer: what was accepted is a prefix of the text and nothing was written after that answer
+                match cmp {
+                    Cmp::Duplicated | Cmp::Reordered => {
+                        r.outcome("VIOLATION:dup-or-reorder");
+                        viol(r, dup_or_reorder(cmp), "Err was returned after a 0 answer".into())
+                    }
+                    _ if !expected.as_bytes().starts_with(&p.accepted) || p.calls_after_zero > 0 => {
+                        r.outcome("VIOLATION:continued-after-zero-write");
+                        viol(r, "continued-after-zero-write", format!("Err was returned, but {} write call(s) followed the 0 answer within the same write_fmt", p.calls_after_zero))
+                    }
+                    _ => r.outcome("helper-err:zero-write-returned-as-error"),
+                }
             } else {
                 match cmp {
                     Cmp::Equal | Cmp::Lost => r.outcome(if p.hard > 0 { "helper-err:EAGAIN/EIO-returned" } else { "helper-err:EINTR-returned-not-retried" }),
@@ -446,6 +565,7 @@ fn combos(thorough: bool) -> Vec<Combo> {
             add(op, "mixed", len);
         }
         for len in [5, 40] {
+            add(op, "pieces", len);
             add(op, "pad", len);
             add(op, "dbgstr", len);
         }
@@ -470,13 +590,21 @@ fn combos(thorough: bool) -> Vec<Combo> {
     add("write_fmt", "two", 40);
     add("write_fmt", "mixed", 40);
     add("write_fmt", "pad", 5);
+    // the same multi-piece formats through both writers (stderr above, stdout here)
+    for op in ["write_fmt", "write_fmt_out"] {
+        add(op, "pieces", 5);
+        add(op, "pieces", 40);
+    }
+    add("write_fmt_out", "one", 5);
+    add("write_fmt_out", "two", 40);
+    add("write_fmt_out", "mixed", 40);
     v
 }
 
 pub fn phase(args: &Args) -> Report {
     let t0 = now();
-    // DESIGN.md asks for <= 5 (thorough <= 7); one more level each is still cheap
-    let max_len = if args.thorough { 8 } else { 6 };
+    // DESIGN.md: <= 5 (thorough <= 7).  (EINTR is retried by print.rs, so it is a continuing answer and the tree is wide.)
+    let max_len = if args.thorough { 7 } else { 5 };
     let cs = combos(args.thorough);
     let mut items = Vec::new();
     for c in cs.iter().cloned() {
@@ -493,6 +621,11 @@ pub fn phase(args: &Args) -> Report {
                     r.sample(json!({"case": case_json(&c, &[1, S_EINTR]), "oracle": "only EINTR injected and the macro returns nothing: accepted bytes must still be the whole text"}));
                     r.sample(json!({"case": case_json(&c, &[0, S_EIO]), "oracle": "EIO: accepted bytes must be the expected text with bytes deleted (no duplicate, no reordering); what is dropped is recorded as outcome"}));
                 }
+                ("write_fmt_out", "pieces", 5) => {
+                    r.sample(json!({"case": case_json(&c, &[1, S_ZERO]),
+                        "kernel_model": "write_fmt(\"<{}{}>\", \"!\", \"#$\") on the stdout writer: write(1,\"<\") -> 1; write(1,\"!\") -> 0",
+                        "oracle": "0 for a non-empty remainder: Err with \"<\" accepted and no further write; Ok with bytes missing is C15:<op>:ok-but-incomplete"}));
+                }
                 ("write_str", "str", 40) => {
                     r.sample(json!({"case": case_json(&c, &[3, 3, S_EAGAIN]), "oracle": "Err allowed (an error was reported); Ok only with all 40 bytes accepted in order"}));
                 }
@@ -508,10 +641,10 @@ pub fn phase(args: &Args) -> Report {
     let mut r = run_isolated(items, &args.out, "C15");
     r.rule = format!(
         "model kernel over the syscall seam answering every write/writev on fd 1/2; for each of {} (operation, format shape, text length) combinations - print!/println!/eprint!/eprintln! \
-         x {{empty literal, bare *ln, literal only, one argument, two arguments, literal+arguments, padded (one write per pad char), Debug-quoted}} x total lengths around {{0,1,5,40,600}}; \
-         dbg! in its four forms; __UnixWriter::write_str/__write_newline/write_fmt - every script of <= {max_len} answers over {{all, 1, 2, 7 bytes, EINTR, EAGAIN, EIO}}, generated breadth-first and \
+         x {{empty literal, bare *ln, literal only, one argument, two arguments, literal+arguments, two adjacent arguments between literals, padded (one write per pad char), Debug-quoted}} x total lengths around {{0,1,5,40,600}}; \
+         dbg! in its four forms; __UnixWriter::write_str/__write_newline/write_fmt (stdout and stderr writer) - every script of <= {max_len} answers over {{all, 1, 2, 7 bytes, EINTR, EAGAIN, EIO, 0 (to a non-empty buffer)}}, generated breadth-first and \
          extended only while the run consumed the whole script and wrote again. A case is non-trivial (counted once) when the whole script was consumed, it does not end in \"all\" (that is the \
-         default continuation, i.e. the shorter script) and no short count >= the offered length occurs (that is \"all\"); the others are run but not counted.",
+         default continuation, i.e. the shorter script) and no short count >= the offered length and no 0 answer to an empty buffer occurs (those are \"all\"); the others are run but not counted.",
         cs.len()
     );
     r.bound("max_script_len", max_len);
